@@ -198,7 +198,16 @@ def install(eng):
         if isinstance(v, z3.ArithRef):
             if v.is_int():
                 return v
-            # truncation toward zero
+            # truncation toward zero; a quotient of integers by a positive integer constant stays in integer arithmetic
+            vs = v
+            if z3.is_app(vs) and vs.decl().kind() == z3.Z3_OP_DIV and z3.is_rational_value(vs.arg(1)) and vs.arg(1).denominator_as_long() == 1 \
+                    and vs.arg(1).numerator_as_long() > 0 and z3.is_app(vs.arg(0)) and vs.arg(0).decl().kind() == z3.Z3_OP_TO_REAL:
+                a_, c_ = vs.arg(0).arg(0), vs.arg(1).numerator_as_long()
+                return z3.If(a_ >= 0, a_ / c_, -((-a_) / c_))
+            if z3.is_app(vs) and vs.decl().kind() == z3.Z3_OP_MUL and len(vs.children()) == 2 and z3.is_rational_value(vs.arg(0)) \
+                    and vs.arg(0).numerator_as_long() == 1 and z3.is_app(vs.arg(1)) and vs.arg(1).decl().kind() == z3.Z3_OP_TO_REAL:
+                a_, c_ = vs.arg(1).arg(0), vs.arg(0).denominator_as_long()
+                return z3.If(a_ >= 0, a_ / c_, -((-a_) / c_))
             fl = z3.ToInt(v)
             return z3.If(v >= 0, fl, -z3.ToInt(-v))
         raise Unsupported("int() argument")
